@@ -250,7 +250,7 @@ def task_tables(a, env):
         for n in small_exps + (more_exps if i < 12 else []) + (neg_exps if i < 40 else neg_exps[:1]):
             cmp("pow", xm, n, "exp")
         if i < 3:
-            for n in huge if i < 2 else huge[:-1]:
+            for n in huge if i < (1 if cr.mc is not None and len(cr.mc) == 12 else 2) else huge[:-1]:
                 cmp("pow", xm, n, "exp")
         # sgn0: optimized classes only have it; compare with the RFC loop
         r.ev += 1
